@@ -554,6 +554,47 @@ def precedence(P, R, lexer, doc):
                     f'{t} is {assoc}-associative; the documented grammar '
                     'is left-associative', unit=f.unit.rel,
                     line=tup.lineno)
+    # a production takes the precedence of its last operator token; a
+    # `%prec T` that gives it the precedence of another token of the
+    # language departs from the documented list (a `%prec` with a name
+    # that is no token, as for unary minus, is the documented exception)
+    level = {t: k for k, (_, ts) in enumerate(code) for t in ts}
+    real = {r.name for r in lexer.rules} | set(lexer.reserved.values())
+    u = P.unit('dd._parser')
+    n_prod = 0
+    for st in (u.classes.get('Parser').body if u.classes.get('Parser')
+               else []):
+        if not (isinstance(st, ast.FunctionDef)
+                and st.name.startswith('p_') and st.body
+                and isinstance(st.body[0], ast.Expr)):
+            continue
+        try:
+            text = ast.literal_eval(st.body[0].value)
+        except Exception:
+            continue
+        if not isinstance(text, str):
+            continue
+        for alt in re.split(r'\|', text.split(':', 1)[-1]):
+            n_prod += 1
+            m = re.search(r'%prec\s+(\w+)', alt)
+            if not m:
+                continue
+            tok = m.group(1)
+            symbols = re.sub(r'%prec\s+\w+', '', alt).split()
+            default = [x for x in symbols if x in level]
+            if tok in real and tok in level and (
+                    not default or level[default[-1]] != level[tok]):
+                R.violation(
+                    'R-GRAMMAR', 'precedence',
+                    f'dd._parser.Parser.{st.name}', f'%prec:{tok}',
+                    f'production `{" ".join(symbols)}` is given the '
+                    f'precedence of {tok} by %prec; its own last operator '
+                    f'token is {default[-1] if default else None}, so the '
+                    'expression no longer groups as the documented '
+                    'precedence list says', unit=u.rel, line=st.lineno)
+    R.holds('R-GRAMMAR', 'dd._parser.Parser',
+            f'{n_prod} productions: no %prec gives a production the '
+            'precedence of another token of the language')
     # every binary operator of p_binary has a precedence
     pb = P.func('dd._parser.Parser.p_binary')
     d = ast.get_docstring(pb.node) or ''
